@@ -1,8 +1,14 @@
 SPECIFICATION Spec
 CONSTANTS
-  MaxAdds = 6
+  MaxAdds = 12
   MaxReads = 7
   Iters = {"i1", "i2", "i3"}
   Depth = 16
+  Ops = {"add", "nil", "nstack", "len", "resolve", "open", "read", "addc", "hold"}
+  Kinds = {"join", "fmtw", "stack", "hunwind", "hunwrap", "nested"}
+  Sizes = {0, 2, 3}
+  HoldKinds = {"gunwind", "gunwrap"}
+  MaxHolds = 3
+  MaxHeld = 3
 CONSTRAINT EmitAll
 CHECK_DEADLOCK FALSE
